@@ -72,7 +72,7 @@ def run_shard(shard, tier, seed, wd, res):
         if rng.random() < 0.5 and n >= 1:
             s.op("pairing_multi", V.lst([p[0] for p, _ in pairs]), V.lst([q_[0] for _, q_ in pairs]))
     # long lists (implementations may process pairs in blocks): pairing_multi_product and miller_loop with many pairs
-    for n in rng.sample([13, 15, 16, 17, 18, 24, 31, 32, 33, 40, 48, 64, 65, 100], 3 if tier == "quick" else 6):
+    for n in rng.sample([13, 15, 16, 17, 18, 24, 31, 32, 33, 40, 48, 64, 65, 100], 3 if tier == "quick" else 6) + [rng.choice([257, 300, 513, 1025])]:
         pairs = [(rng.choice(pool1 + [id1] if rng.random() < 0.1 else pool1), rng.choice(pool2)) for _ in range(n)]
         s.op("pairing_multi", V.lst([p[0] for p, _ in pairs]), V.lst([q_[0] for _, q_ in pairs]))
         if rng.random() < 0.5:
